@@ -41,6 +41,32 @@ _install_plugins()
 
 F64 = z3.Float64()
 
+# ---- solver portfolio behind every CrossHair fork: the incremental "smt"-tactic solver CrossHair uses is weak on
+# floating point; when it answers unknown we re-ask a fresh z3 solver (default tactic pipeline) and then cvc5.
+import crosshair.statespace as _ss   # noqa: E402
+from crosshair.util import UnknownSatisfiability   # noqa: E402
+PORTFOLIO = {'fallbacks': 0, 'fallback_s': 0.0, 'timeout_s': 60.0, 'backends': set()}
+
+
+def _solver_is_sat(solver, *exprs):
+    ret = solver.check(*exprs)
+    if ret == z3.unknown:
+        if solver.reason_unknown() == 'interrupted from keyboard':
+            raise KeyboardInterrupt
+        from vf import portfolio
+        t0 = time.time()
+        r, backend = portfolio.check_unsat(list(solver.assertions()), timeout_s=PORTFOLIO['timeout_s'], extra=list(exprs))
+        PORTFOLIO['fallbacks'] += 1
+        PORTFOLIO['fallback_s'] += time.time() - t0
+        PORTFOLIO['backends'].add(backend)
+        if r == 'unknown':
+            raise UnknownSatisfiability
+        return r == 'sat'
+    return ret == z3.sat
+
+
+_ss.solver_is_sat = _solver_is_sat
+
 
 class Inconclusive(Exception):
     """Raised by a harness when it cannot decide (bound too small etc.). Never a violation."""
@@ -266,6 +292,12 @@ class Sym(BaseSym):
             s = self.space.solver
             r = s.check()
             if str(r) != 'sat':
+                # incremental solver gave up: ask a fresh solver (default tactics)
+                s = z3.Solver()
+                s.set('timeout', int(PORTFOLIO['timeout_s'] * 1000))
+                s.add(*self.space.solver.assertions())
+                r = s.check()
+            if str(r) != 'sat':
                 raise Inconclusive(f'model query returned {r}')
             m = s.model()
             return {k: _z3_to_py(m, kind, var) for k, (kind, var, _) in self.inputs.items()}
@@ -282,7 +314,7 @@ class Sym(BaseSym):
             assert isinstance(cond, SymbolicBool), type(cond)
             self.obligations += 1
             t0 = time.time()
-            res, backend = portfolio.check_unsat(list(self.space.solver.assertions()) + [z3.Not(cond.var)],
+            res, backend = portfolio.check_unsat(list(self.space.solver.assertions()), extra=[z3.Not(cond.var)],
                                                  timeout_s=self.B.get('prove_timeout', 60))
             self.portfolio_s += time.time() - t0
             self.backends.add(backend)
@@ -323,7 +355,7 @@ def run_concrete(harness, values, bounds=None, known=()):
 
 
 def explore(harness, bounds=None, timeout=60.0, per_path=20.0, max_paths=10**7, float_model='ieee',
-            known=(), only=None, want_goals=(), stop_on_first=True, n_samples=3):
+            known=(), only=None, want_goals=(), stop_on_first=True, n_samples=3, smt_timeout=None):
     """Explore all paths of harness(sym). Returns a result dict."""
     root = RootNode()
     t0 = time.process_time()
@@ -337,7 +369,8 @@ def explore(harness, bounds=None, timeout=60.0, per_path=20.0, max_paths=10**7, 
         now = time.process_time()
         if now - t0 > timeout:
             break
-        space = StateSpace(execution_deadline=now + per_path, model_check_timeout=per_path / 2, search_root=root)
+        space = StateSpace(execution_deadline=now + per_path, model_check_timeout=smt_timeout or per_path / 2,
+                           search_root=root)
         failure = None
         with condition_parser([AnalysisKind.PEP316]), Patched(), COMPOSITE_TRACER, NoTracing(), StateSpaceContext(space):
             sym = Sym(space, bounds, known, float_model)
@@ -414,7 +447,9 @@ def explore(harness, bounds=None, timeout=60.0, per_path=20.0, max_paths=10**7, 
             break
     res['cpu_s'] = round(time.process_time() - t0, 2)
     res['wall_s'] = round(time.time() - w0, 2)
-    res['backends'] = sorted(backends | {'z3-' + z3.get_version_string()})
+    res['backends'] = sorted(backends | PORTFOLIO['backends'] | {'z3-' + z3.get_version_string()})
+    res['portfolio_fallbacks'] = PORTFOLIO['fallbacks']
+    res['portfolio_s'] = round(res['portfolio_s'] + PORTFOLIO['fallback_s'], 2)
     if res['failures']:
         res['verdict'] = 'REFUTED'
     elif res['nonrepro'] or res['unknown'] or res['inconclusive']:
